@@ -1,6 +1,10 @@
 """Property -> rules table (DESIGN 3) with the evidence texts."""
 
 PROPS = {
+    'C09': {
+        'rules': ['R-payload-complete', 'R-version-in-payload', 'R-no-field-leak', 'R-snapshot-point', 'R-dump-atomic', 'R-version-pairing', 'R-transfer-restart'],
+        'explanation': 'x', 'level_text': 'x', 'level_note': 'x', 'technique': 'x',
+    },
     'C06': {
         'rules': ['R-durable-before-ack', 'R-ack-after-store', 'R-dump-before-trim', 'R-restart-keeps-journal', 'R-log-owners', 'R-head-drop-atomic', 'R-write-then-publish'],
         'explanation': 'x', 'level_text': 'x', 'level_note': 'x', 'technique': 'x',
@@ -30,7 +34,7 @@ PROPS = {
         'explanation': 'x', 'level_text': 'x', 'level_note': 'x', 'technique': 'x',
     },
     'C02': {
-        'rules': ['R-cb-linear', 'R-success-guard', 'R-disposition', 'R-commit-gate'],
+        'rules': ['R-cb-linear', 'R-success-guard', 'R-disposition', 'R-commit-subscription', 'R-request-id-unique', 'R-commit-gate'],
         'explanation': 'x', 'level_text': 'x', 'level_note': 'x', 'technique': 'x',
     },
     'C12': {
@@ -38,7 +42,7 @@ PROPS = {
         'explanation': 'x', 'level_text': 'x', 'level_note': 'x', 'technique': 'x',
     },
     'C01': {
-        'rules': ['R-apply-step', 'R-append-gate', 'R-commit-gate', 'R-log-owners'],
+        'rules': ['R-apply-step', 'R-append-gate', 'R-commit-gate', 'R-truncate-on-conflict', 'R-log-owners', 'R-payload-complete'],
         'explanation': 'x', 'level_text': 'x', 'level_note': 'x', 'technique': 'x',
     },
     'C04': {
